@@ -20,7 +20,8 @@ vars == <<mdl, pc>>
 
 SVars == <<"x", "z", "w">>
 AlgDef == Bin("mul", V("z"), V("w"))                    \* m = z*w
-F(i) == Subst(CASE i = 1 -> mdl.fx [] i = 2 -> mdl.fz [] i = 3 -> mdl.fw, "m", AlgDef)
+AlgDef2 == Bin("add", Bin("mul", V("m"), V("m")), Call("sin", V("z")))      \* q = m*m + sin(z): a second intermediate that uses the first
+F(i) == Subst(Subst(CASE i = 1 -> mdl.fx [] i = 2 -> mdl.fz [] i = 3 -> mdl.fw, "q", AlgDef2), "m", AlgDef)
 RECURSIVE Delays(_)
 Delays(t) == CASE t.k = "past" -> {t.c}
                [] t.k \in {"var", "lit"} -> {}
@@ -37,7 +38,7 @@ Next == Diff
 Spec == Init /\ [][Next]_vars
 
 (* design invariants *)
-Env0 == [n \in {"x", "z", "w", "p", "g", "m"} |-> CASE n = "x" -> Q(2) [] n = "z" -> Q(3) [] n = "w" -> <<1, 2>> [] n = "p" -> Q(3) [] n = "g" -> Q(2) [] n = "m" -> Q(0)]
+Env0 == [n \in {"x", "z", "w", "p", "g", "m", "q"} |-> CASE n = "x" -> Q(2) [] n = "z" -> Q(3) [] n = "w" -> <<1, 2>> [] n = "p" -> Q(3) [] n = "g" -> Q(2) [] n = "m" -> Q(0) [] n = "q" -> Q(0)]
 DerivativeExactOnPolynomials == \A i \in 1..3, j \in 1..3 : DExactOn(F(i), SVars[j], Env0)
 HistoryColumnsAreStatePositions ==         \* a delayed leaf of variable y_j contributes to column j and to no other
   \A d \in AllDelays : \A i \in 1..3, j \in 1..3 :
@@ -58,7 +59,8 @@ Terms == << V("x"), V("z"), Bin("mul", V("x"), V("z")), Bin("pow", V("x"), L(2))
             Call("tanh", Bin("mul", V("x"), V("z"))), Bin("mul", V("g"), Past("z", 2)), Bin("mul", V("m"), V("x")),
             Call("exp", Neg(V("x"))), Bin("div", V("z"), Bin("add", L(1), Bin("pow", V("x"), L(2)))),
             Call("cos", Bin("add", V("w"), V("z"))), Bin("mul", V("g"), Past("x", 1)),
-            Bin("mul", V("g"), Past("z", 3)) >>      \* tau3 differs from tau2 only in the 4th significant digit
+            Bin("mul", V("g"), Past("z", 3)),        \* tau3 differs from tau2 only in the 4th significant digit
+            Bin("add", V("m"), V("q")) >>            \* the intermediate m used directly and through q
 Rhs(decay, v, a, b) == Bin("add", Bin("add", Bin("mul", L(decay), V(v)), Terms[a]), Terms[b])
 ModelSet(as, bs, cs, ds) ==
   { [fx |-> Rhs(-1, "x", a, b), fz |-> Rhs(-2, "z", c, 1), fw |-> Rhs(-3, "w", d, 2)] : a \in as, b \in bs, c \in cs, d \in ds }
